@@ -75,6 +75,9 @@ static int vs_nc;
 static __thread struct vs_thread *vs_me;
 static volatile bool vs_is_active;
 static uint64_t vs_clock = 1000000000000ull; /* virtual ns; starts at 1000 s */
+static const uint64_t vs_clock_start = 1000000000000ull;
+static uint64_t vs_time_cap_ns = 3600ull * 1000000000ull;
+static uint64_t vs_forced_wait_ns;
 static long vs_nsteps;
 static long vs_step_cap = 20000;
 static int vs_debug;
@@ -189,6 +192,11 @@ static int vs_pick(uint64_t mask, int cur) {
             }
         }
         c = best;
+        if (c == VS_TIMER_ID && (mask & ~(1ull << VS_TIMER_ID))) {
+            /* an early timer firing is a preemption like any other: it does not keep its priority, otherwise
+             * time would run away while runnable threads starve (an unfair schedule, not a library behaviour) */
+            vs_src.prio[VS_TIMER_ID] = --vs_src.low;
+        }
     } else {
         c = vs_default_pick(mask, cur);
     }
@@ -380,8 +388,18 @@ static void vs_schedule(void) {
         int cur = (me->state == VST_READY && ((mask >> me->id) & 1)) ? me->id : -1;
         int c = vs_pick(mask, cur);
         if (c == VS_TIMER_ID) {
+            uint64_t before = vs_clock;
             if (dl > vs_clock) {
                 vs_clock = dl;
+            }
+            if (!(mask & ~(1ull << VS_TIMER_ID))) {
+                vs_forced_wait_ns += (dl > before) ? dl - before : 0;
+            }
+            if (vs_forced_wait_ns > vs_time_cap_ns) {
+                /* more than one virtual hour of waiting during which NO thread could run (only those timer firings
+                 * count; a schedule that fires the timer while threads are runnable is merely unfair): every wait
+                 * in the scenarios is bounded by seconds, so this is a hang (e.g. a join that can never return) */
+                vs_fatal_event("Deadlock");
             }
             vs_expire();
             continue;
@@ -842,7 +860,8 @@ static void vs_dfs(vs_scenario_fn scenario, char **lines, int nlines, long budge
                         if (!((mask[i] >> a) & 1) || a == chosen[i]) {
                             continue;
                         }
-                        int np = pc + ((cur_en && a != cur[i]) ? 1 : 0);
+                        bool others = (mask[i] & ~(1ull << VS_TIMER_ID)) != 0;
+                        int np = pc + (((cur_en && a != cur[i]) || (a == VS_TIMER_ID && others)) ? 1 : 0);
                         if (np > bound) {
                             continue;
                         }
@@ -859,7 +878,8 @@ static void vs_dfs(vs_scenario_fn scenario, char **lines, int nlines, long budge
                         bucket[np][cnt[np]++] = (struct vs_item){pre, i + 1, np};
                     }
                 }
-                if (cur_en && chosen[i] != cur[i]) {
+                if ((cur_en && chosen[i] != cur[i]) ||
+                    (chosen[i] == VS_TIMER_ID && (mask[i] & ~(1ull << VS_TIMER_ID)) != 0)) {
                     pc++;
                 }
             }
